@@ -22,13 +22,16 @@ pub struct C12;
 struct Batch {
     op: usize,
     queue: String,
+    /// incarnation of the queue (number of delete_queue calls on that name before this batch)
+    inc: u32,
     first: u64,
     hashes: Vec<u64>,
 }
 
 /// Focused workload: 1..2 queues, batches of 1..64 records (>= 16 bytes each, so every
 /// record identifies itself), aimed at block / file boundaries, truncations of the same
-/// queue in between.  No deletions: a position is then written by exactly one batch.
+/// queue in between, and now and then a delete_queue + create_queue of the same name (the
+/// positions start again at 0: records still identify their batch by content).
 fn workload(rng: &mut Rng, file_size: u64) -> Vec<Op> {
     let nq = rng.usize(1, 2);
     let names: Vec<String> = (0..nq).map(|i| if rng.chance(1, 6) { format!("{}-{}", "n".repeat(rng.usize(200, 5000)), i) } else { format!("batchq{}", i) }).collect();
@@ -49,6 +52,14 @@ fn workload(rng: &mut Rng, file_size: u64) -> Vec<Op> {
         }
         if rng.chance(1, 12) {
             ops.push(Op::Restart);
+            continue;
+        }
+        if rng.chance(1, 9) && next[&q] > 0 {
+            // new incarnation of the queue: the next batches re-use positions of the old one
+            ops.push(Op::Delete { q: q.clone() });
+            ops.push(Op::Create { q: q.clone() });
+            next.insert(q.clone(), 0);
+            first_kept.insert(q.clone(), 0);
             continue;
         }
         // frame-commensurate batches: a frame payload is 32761 = 181 * 181 bytes, a serialized
@@ -106,6 +117,8 @@ fn judge(snap: &Snapshot, batches: &[Batch], trunc: &BTreeMap<String, u64>) -> R
             let rec = q.and_then(|q| q.recs.binary_search_by_key(&p, |r| r.pos).ok().map(|ix| &q.recs[ix]));
             match rec {
                 Some(r) if r.hash == b.hashes[i as usize] => present.push(true),
+                // the position holds a record of a batch of another incarnation of the queue
+                Some(r) if batches.iter().any(|o| o.queue == b.queue && o.inc != b.inc && p >= o.first && p < o.first + o.hashes.len() as u64 && o.hashes[(p - o.first) as usize] == r.hash) => present.push(false),
                 Some(r) => {
                     return Err((
                         "batch-record-altered".into(),
@@ -136,6 +149,9 @@ fn judge(snap: &Snapshot, batches: &[Batch], trunc: &BTreeMap<String, u64>) -> R
             ));
         }
         let last_missing = b.first + first_present as u64 - 1;
+        // keyed by queue NAME, not incarnation: when damage swallows a delete_queue entry, a
+        // truncate issued on the re-created queue legitimately applies to the records of the
+        // earlier incarnation that the damage brought back
         match trunc.get(&b.queue) {
             Some(t) if last_missing <= *t => suffix += 1,
             other => {
@@ -174,10 +190,10 @@ impl Monitor for C12 {
         ]
     }
     fn rule(&self) -> String {
-        "case = one focused history (1..2 queues, 4..14 batch appends of 1..64 self-identifying records totalling 16 B .. 3 WAL files, plus frame-commensurate batches of 400..700 records of 169 bytes / 3..5 records of 32749 bytes (12+len divides the 32761-byte frame payload), interleaved truncations of the same queue, no deletions) under Always(Flush); crash leg: every file-system effect boundary and frame-relative byte cuts of every write; damage leg: every frame written by a batch x {payload bit, payload garbage, checksum, length byte, type byte}; evaluation = one recovery; oracle over batch boundaries known to the harness: each batch is recovered as nothing, everything, or a hole-free suffix ending at its last record whose missing head is at or below a truncate position issued on that queue; read-fault leg: up to 10 recoveries of the final image with one read failing once (EIO): if open returns a log anyway the same oracle applies; distinct_nontrivial = distinct (case, crash point or damaged frame+kind) inside or on a batch of >= 2 records".into()
+        "case = one focused history (1..2 queues, 4..14 batch appends of 1..64 self-identifying records totalling 16 B .. 3 WAL files, plus frame-commensurate batches of 400..700 records of 169 bytes / 3..5 records of 32749 bytes (12+len divides the 32761-byte frame payload), interleaved truncations of the same queue and, one op in nine, delete_queue + create_queue of the same name so that later batches re-use positions of an earlier incarnation) under Always(Flush); crash leg: every file-system effect boundary and frame-relative byte cuts of every write; damage leg: every frame written by a batch x {payload bit, payload garbage, checksum, length byte, type byte}; evaluation = one recovery; oracle over batch boundaries known to the harness: each batch is recovered as nothing, everything, or a hole-free suffix ending at its last record whose missing head is at or below a truncate position issued on that queue; read-fault leg: up to 10 recoveries of the final image with one read failing once (EIO): if open returns a log anyway the same oracle applies; distinct_nontrivial = distinct (case, crash point or damaged frame+kind) inside or on a batch of >= 2 records".into()
     }
     fn assumptions(&self) -> Vec<String> {
-        vec!["records are >= 16 bytes and carry their (op, index, length) identity, positions are never re-used (no deletions in this workload), so membership of a recovered record in a batch is unambiguous".into()]
+        vec!["records are >= 16 bytes and carry their (op, index, length) identity, so membership of a recovered record in a batch is unambiguous even where a re-created queue re-uses positions".into()]
     }
     fn run_case(&self, ctx: &Ctx, case: u64, acc: &mut Acc) {
         quiet_panics();
@@ -196,11 +212,16 @@ impl Monitor for C12 {
         crate::util::clear_dir(&live_dir);
         // batches known to the harness
         let mut batches: Vec<Batch> = Vec::new();
+        let mut incs: BTreeMap<String, u32> = BTreeMap::new();
         for (k, (op, out)) in run.ops.iter().zip(run.outcomes.iter()).enumerate() {
+            if let Op::Delete { q } = op {
+                *incs.entry(q.clone()).or_insert(0) += 1;
+                acc.count("queue_re_incarnations_(delete_then_create)");
+            }
             if let (Op::Append { q, lens, .. }, Outcome::Appended { last: Some(last), .. }) = (op, out) {
                 let first = last + 1 - lens.len() as u64;
                 let hashes = lens.iter().enumerate().map(|(i, l)| payload_hash(key, Pid { op: k as u32, idx: i as u32, len: *l as u32 })).collect();
-                batches.push(Batch { op: k, queue: q.clone(), first, hashes });
+                batches.push(Batch { op: k, queue: q.clone(), inc: incs.get(q).copied().unwrap_or(0), first, hashes });
             }
         }
         // highest truncate position issued per queue by calls 0..=k (in-flight included)
@@ -244,7 +265,7 @@ impl Monitor for C12 {
                     }
                     match r {
                         Recovered::Ok(s) => {
-                            let vis: Vec<Batch> = visible.iter().map(|x| Batch { op: x.op, queue: x.queue.clone(), first: x.first, hashes: x.hashes.clone() }).collect();
+                            let vis: Vec<Batch> = visible.iter().map(|x| Batch { op: x.op, queue: x.queue.clone(), inc: x.inc, first: x.first, hashes: x.hashes.clone() }).collect();
                             match judge(&s, &vis, &trunc) {
                                 Ok((wh, no, su)) => {
                                     acc.add("batch_judgements_whole_recovered", wh);
